@@ -98,5 +98,36 @@ fn main() {
             }
         },
     );
+    // long arrays: block / offset-buffer thresholds in partition implementations
+    let smax = rep.cfg.pick(2100, 4200);
+    let lcases = nsmc::patterns::sizes(16, smax).into_iter().filter(|&n| n >= 9).flat_map(|n| {
+        (0..5u8).flat_map(move |fam| {
+            let mut piv: Vec<usize> = vec![0, 1, n / 2, n - 2, n - 1, n / 3];
+            piv.extend([255usize, 256, 257, 511, 512].iter().cloned().filter(|&p| p < n));
+            piv.sort();
+            piv.dedup();
+            piv.into_iter().map(move |p| (n, fam, p))
+        })
+    });
+    rep.run_sub(
+        "long-arrays",
+        &format!("every length 9..=16 and block threshold neighbourhoods (2^k-1, 2^k, 2^k+1, 3*2^(k-1)+-1, multiples of 100) up to {} x 5 input families (increasing, decreasing, pseudo-random permutation, two-valued, sawtooth) x pivot positions (ends, middle, third, 255..257, 511, 512) on contiguous / reversed / stepped views", smax),
+        lcases,
+        |c, lx| {
+            let (n, fam, p) = *c;
+            lx.nontrivial(true);
+            let vals: Vec<i32> = (0..n)
+                .map(|i| match fam {
+                    0 => i as i32,
+                    1 => (n - i) as i32,
+                    2 => ((i * 7919 + 13) % n) as i32,
+                    3 => (i % 2) as i32,
+                    _ => (i % 7) as i32,
+                })
+                .collect();
+            let case = Case { pat: vec![], pivot: p, step: [1isize, -1, 2][(n + p) % 3] };
+            run_one(&case, vals, -99, lx, "i32-long");
+        },
+    );
     rep.finish();
 }
